@@ -285,3 +285,33 @@ def ob_history_equal_values(g: int, i: int, j: int, k: int) -> bool:
 OBLIGATIONS.append(Ob('history_equal_values', ob_history_equal_values, ['0 <= g <= 4', '0 <= i < 3', '0 <= j < 3', '0 <= k < 3'], timeout=tier(200, 600), path_timeout=60,
                       data='-', selectors='three renderings of one template object with values picked from a group of equal-comparing values %r or one mutable object whose text changes; seven quoting forms' % EQ_GROUPS,
                       stubs='runs untraced once the selectors are fixed on the path'))
+
+
+# ---------------------------------------------------------------- wave 5: values that already LOOK escaped
+REF_POOL = ['&amp;', '&lt;', 'AT&amp;T', '&amp;amp;', '&#x27;', '&quot;x', '&gt', 'a&lt;b&gt;c', '&#39;', '&AMP;', '&amp', '&amp;lt;', '&nbsp;', '&#x26;', '&amp;#x27;']
+
+
+def ob_reference_lookalikes(j: int, k: int) -> bool:
+    """a value whose own text contains character references (&amp; &lt; &#x27; ...) is escaped like any other text: its '&' becomes
+    '&amp;' in every form, and unescaping the output gives the value back"""
+    vi = 0
+    for i in range(len(REF_POOL)):
+        if j == i:
+            vi = i
+    keys = sorted(T)
+    ki = 0
+    for i in range(len(keys)):
+        if k == i:
+            ki = i
+    with NoTracing():
+        v = REF_POOL[vi]
+        form = keys[ki]
+        out = T[form](x=v)
+        if out != expected(form, v):
+            return False
+        return html.unescape(T['entity'](x=v)) == v and T_PLAIN(x=v) == v
+
+
+OBLIGATIONS.append(Ob('reference_lookalike_values', ob_reference_lookalikes, ['0 <= j < %d' % len(REF_POOL), '0 <= k < %d' % len(T)], timeout=tier(150, 400), path_timeout=60, data='-',
+                      selectors='values %r through every quoting form' % REF_POOL, outside='other values that contain references',
+                      stubs='render runs untraced once value and form are fixed on the path'))
